@@ -50,6 +50,36 @@ def gen_rounds(seed, tier, run):
             out.append(f"stack {L([arr(sh), arr(sh, base=50), arr(sh, base=90)])} {opt(ax)}")
             out.append(f"stack@str {L([arr(sh), arr(sh, base=50)])} {opt(ax)}")
         out.append(f"stack {L([arr(sh), arr(sh + [1], base=50)])} z0")
+    # every ordered pair of equal-rank shapes (most of them must be refused: equal element counts on the other axes
+    # are not enough), along every axis
+    for rank, lens in ((2, (1, 2, 3)), (3, (1, 2, 3))):
+        shs = [list(t) for t in itertools.product(lens, repeat=rank)]
+        for s1 in shs:
+            for s2 in shs:
+                for ax in range(rank):
+                    if rank == 3 and tier == "quick" and s1[:ax] + s1[ax + 1:] == s2[:ax] + s2[ax + 1:]:
+                        continue            # joinable pairs of rank 3 are covered above
+                    out.append(f"append {arr(s1)} {arr(s2, base=50)} {z(ax)}")
+                    if (len(out) // 2) % 3 == 0 or tier == "thorough":
+                        out.append(f"concatenate {L([arr(s1), arr(s2, base=50)])} {z(ax)}")
+    for _ in range(400 if tier == "quick" else 3000):
+        s1 = [rng.choice((1, 2, 3, 4)) for _ in range(4)]
+        ax = rng.randrange(4)
+        rest = s1[:ax] + s1[ax + 1:]
+        rng.shuffle(rest)
+        s2 = rest[:ax] + [rng.choice((1, 2, 3))] + rest[ax:]
+        out.append(f"append {arr(s1)} {arr(s2, base=50)} {z(ax)}")
+        out.append(f"concatenate {L([arr(s1), arr(s2, base=50), arr(s1, base=300)])} {z(ax)}")
+    # mixed ranks with every axis up to beyond the larger rank
+    small = [list(t) for r in (1, 2, 3) for t in itertools.product((1, 2), repeat=r)] + [[3], [2, 3], [3, 2]]
+    for s1 in small:
+        for s2 in small:
+            if len(s1) == len(s2):
+                continue
+            for ax in range(max(len(s1), len(s2)) + 2):
+                out.append(f"concatenate {L([arr(s1), arr(s2, base=50)])} {z(ax)}")
+                out.append(f"append {arr(s1)} {arr(s2, base=50)} {z(ax)}")
+            out.append(f"concatenate {L([arr(s1), arr(s2, base=50)])} n")
     out.append("concatenate L0 n")
     out.append("stack L0 n")
     out.append("vstack L0")
